@@ -13,6 +13,7 @@ import (
 	"github.com/rigochain/rigo-go/types/xerrors"
 	abcitypes "github.com/tendermint/tendermint/abci/types"
 	tmlog "github.com/tendermint/tendermint/libs/log"
+	tmtypes "github.com/tendermint/tendermint/types"
 	"sort"
 	"strconv"
 	"sync"
@@ -378,6 +379,10 @@ func (ctrler *StakeCtrler) ValidateTrx(ctx *ctrlertypes.TrxContext) xerrors.XErr
 		//    ==> r.Sign() == 0
 		if r.Sign() != 0 {
 			return xerrors.ErrInvalidTrx.Wrapf("wrong amount: it should be multiple of %v", ctrlertypes.AmountPerPower())
+		}
+		// the power is kept as int64 and handed to the consensus engine: it must fit its limit
+		if !q.IsUint64() || q.Uint64() > uint64(tmtypes.MaxTotalVotingPower) {
+			return xerrors.ErrInvalidTrx.Wrapf("wrong amount: voting power should not exceed %v", tmtypes.MaxTotalVotingPower)
 		}
 
 		txPower := ctrlertypes.AmountToPower(ctx.Tx.Amount)
